@@ -16,5 +16,14 @@ def handle (fn : String) (args : List Json) : String :=
   | "get_birth_date" => match args with
     | [a0] => (do let x0 ← Wire.decStr a0; pure (Wire.respondWith Wire.encDate (Gen.cn_ric.get_birth_date x0)) : Option String).getD "badargs"
     | _ => "badargs"
+  | "get_birth_place" => match args with
+    | [a0] => (do let x0 ← Wire.decStr a0; pure (Wire.respondWith (Wire.encDict Wire.encStr Wire.encStr) (Gen.cn_ric.get_birth_place x0)) : Option String).getD "badargs"
+    | _ => "badargs"
+  | "is_valid" => match args with
+    | [a0] => (do let x0 ← Wire.decStr a0; pure (Wire.respondWith Wire.encBool (Gen.cn_ric.is_valid x0)) : Option String).getD "badargs"
+    | _ => "badargs"
+  | "validate" => match args with
+    | [a0] => (do let x0 ← Wire.decStr a0; pure (Wire.respondWith Wire.encStr (Gen.cn_ric.validate x0)) : Option String).getD "badargs"
+    | _ => "badargs"
   | _ => "nofunc"
 end Driver.D_cn_ric
